@@ -163,7 +163,8 @@ type Exec struct {
 	Samples   []Sample
 	InPass    bool
 	// hooks for oracles
-	OnEvent func(Event)
+	OnEvent  func(Event)
+	OnAction func(Action)
 }
 
 func NewExec(maxHeight int, opts ...incr.GraphOption) *Exec {
@@ -239,6 +240,9 @@ func (e *Exec) register(kind string, inc incr.Incr[int], inode incr.INode, scope
 // invoke performs the plan's actions for (node, which); the returned error / panic is the fault.
 func (e *Exec) invoke(node int, which string) error {
 	for _, a := range e.plan[fmt.Sprintf("%d/%s", node, which)] {
+		if e.OnAction != nil {
+			e.OnAction(a)
+		}
 		switch a.Kind {
 		case "ASet":
 			e.Nodes[a.Var].Var.Set(a.X)
